@@ -1765,7 +1765,7 @@ async fn check_index_coverage_inner(
         let dom: Vec<i64> = match col.as_str() {
             "v" => vec![0, 1, 2, 3, 5, 7, 11, 17, 23, 31, 42, 49, 55, 100],
             "w" => vec![0, 1, 2, 3, 4, 5, 6, 10, 12, 15, 18, 20],
-            "id" => vec![0, 1, 3, 5, 9, 10, 11, 19, 20, 39],
+            "id" => vec![0, 1, 2, 3, 5, 7, 8, 9, 10, 11, 19, 20, 39],
             _ => continue,
         };
         for k in &dom {
@@ -2052,4 +2052,27 @@ pub async fn aftermath(out: &HistoryOutcome, sc: &SerialCheck) -> (Vec<Finding>,
         }
     }
     (findings, rows)
+}
+
+
+/// Stable row ids + BTree on the key: a merge_insert that joins through the index does not match a
+/// key whose row was rewritten by an earlier update (sequential root cause, `PROBE --name
+/// mi_after_two_updates_seq`); the committed merge_insert then lacks part of its effect. Gives such
+/// content differences their own narrow class.
+pub fn reclassify_key_index_merge(out: &HistoryOutcome, findings: &mut [Finding]) {
+    let key_index = out.spec.pre_ops.iter().any(|o| matches!(o, Op::CreateIndex { col: "id", .. }))
+        || out.results.iter().any(|r| r.result.is_ok() && matches!(r.op, Op::CreateIndex { col: "id", .. }));
+    if !(key_index && out.spec.stable_row_ids) {
+        return;
+    }
+    for f in findings.iter_mut() {
+        let content = f.signature.starts_with("stale-or-wrong-value:")
+            || f.signature.starts_with("row-missing:")
+            || f.signature.starts_with("aftermath-update-differs-from-model:");
+        let by_merge = f.what.contains(" after merge_u") || f.what.contains(" after merge_col");
+        if content && by_merge {
+            f.what = format!("{} [{}]", f.what, f.signature);
+            f.signature = "merge_insert-through-key-index-misses-rewritten-row:stable-row-ids".into();
+        }
+    }
 }
